@@ -416,9 +416,9 @@ example : (Heap.empty.run demo).2 =
 The model keeps a map as a list of entries; `assocErase` removes the first entry under a key. That this IS a deletion rests on an invariant - every key
 occurs once - which the empty map has, a literal establishes (`literal_entries_distinct`) and every store and deletion keeps
 (`entriesStep_keeps_distinct`). Under it, any history reads as the same history on a function from keys to optional values
-(`map_history_is_dictionary`): a deleted key is gone, a stored key yields the last value stored, other keys are untouched. (The lift of the invariant to
-every reachable heap of the history model - maps only change through `allocMap` of such a fold, `setAssoc` and `assocErase` - is by inspection of
-`Heap.step`, not a theorem yet.) -/
+(`map_history_is_dictionary`): a deleted key is gone, a stored key yields the last value stored, other keys are untouched. The invariant holds in EVERY heap a container history reaches
+(`reachable_maps_keep_every_key_once`: induction on the history, every statement of `Heap.step` / `Heap.step2` - maps only change through `allocMap` of
+such a fold, `setAssoc` and `assocErase`). -/
 
 def keysOf (l : List (V × V)) : List V := l.map (·.1)
 
@@ -620,6 +620,70 @@ theorem literal_entries_distinct (es : List (V × V)) : KeysDistinct (es.foldl (
 
 /-- the invariant matters: with a key twice in the list, a deletion would let the older entry come back -/
 example : (assocErase (.int 1) [(.int 1, .int 10), (.int 1, .int 20)]).lookup (.int 1) = some (.int 20) := by decide
+
+
+/-- every map of the heap keeps every key once -/
+def MapsDistinct (m : Array (List (V × V))) : Prop := ∀ (id : Nat) (kvs : List (V × V)), m[id]? = some kvs → KeysDistinct kvs
+
+@[simp] theorem setVar_maps (h : Heap) (x : String) (v : V) : (h.setVar x v).maps = h.maps := rfl
+@[simp] theorem writeElem_maps (h : Heap) (s : Slice) (i : Nat) (v : V) : (h.writeElem s i v).maps = h.maps := by
+  unfold Heap.writeElem; split <;> rfl
+@[simp] theorem alloc_maps (h : Heap) (vs : List V) (c : Nat) : (h.alloc vs c).1.maps = h.maps := rfl
+
+theorem foldl_writeElem_maps (s : Slice) (g : Nat → Nat) (f : Nat → V) : ∀ (js : List Nat) (h : Heap),
+    (js.foldl (fun hh j => hh.writeElem s (g j) (f j)) h).maps = h.maps := by
+  intro js
+  induction js with
+  | nil => intro h; rfl
+  | cons j rest ih => intro h; simp only [List.foldl]; rw [ih]; simp
+
+@[simp] theorem append_maps (h : Heap) (s : Slice) (vs : List V) (nc : Nat) : (h.append s vs nc).1.maps = h.maps := by
+  unfold Heap.append
+  split
+  · exact foldl_writeElem_maps s (fun j => s.len + j) (fun j => vs.getD j .nil) _ h
+  · simp
+
+theorem md_push (m : Array (List (V × V))) (kvs : List (V × V)) (hm : MapsDistinct m) (hk : KeysDistinct kvs) : MapsDistinct (m.push kvs) := by
+  intro id l hl
+  by_cases hid : id < m.size
+  · rw [Array.getElem?_push_lt hid] at hl; exact hm id l (by simpa [Array.getElem?_eq_getElem hid] using hl)
+  · by_cases he : id = m.size
+    · subst he; simp at hl; exact hl ▸ hk
+    · have : m.size < id := by omega
+      simp [Array.getElem?_push, this, he] at hl
+      have : ¬ id < m.size + 1 := by omega
+      simp_all
+
+theorem md_set (m : Array (List (V × V))) (i : Nat) (kvs : List (V × V)) (hm : MapsDistinct m) (hk : KeysDistinct kvs) : MapsDistinct (m.setIfInBounds i kvs) := by
+  intro id l hl
+  by_cases he : id = i
+  · subst he
+    by_cases hid : id < m.size
+    · simp [hid] at hl; exact hl ▸ hk
+    · simp [hid] at hl
+  · have : (m.setIfInBounds i kvs)[id]? = m[id]? := by simp [Array.getElem?_setIfInBounds_ne (Ne.symm he)]
+    exact hm id l (this ▸ hl)
+
+
+/-- one statement of a container history keeps the invariant -/
+theorem step_keeps_maps_distinct (h : Heap) (op : Op) (hm : MapsDistinct h.maps) : MapsDistinct (h.step op).1.maps := by
+  cases op <;> simp only [Heap.step] <;> (repeat' split) <;> (try simp) <;> (try exact hm)
+  · exact md_push _ _ hm (literal_entries_distinct _)
+  · exact md_set _ _ _ hm (setAssoc_keeps_distinct _ _ _ (hm _ _ (by assumption)))
+  · exact md_set _ _ _ hm (assocErase_keeps_distinct _ _ (hm _ _ (by assumption)))
+
+theorem step2_keeps_maps_distinct (h : Heap) (op : Op) (hm : MapsDistinct h.maps) : MapsDistinct (h.step2 op).1.maps := by
+  cases op <;> simp only [Heap.step2] <;> (try exact step_keeps_maps_distinct h _ hm) <;> (repeat' split) <;> (try simp) <;> (try exact hm)
+
+/-- EVERY heap a container history reaches keeps every key of every map once: the hypothesis of `map_history_is_dictionary` holds wherever the model goes -/
+theorem reachable_maps_keep_every_key_once : ∀ (ops : List Op) (h : Heap), MapsDistinct h.maps → MapsDistinct (h.run ops).1.maps := by
+  intro ops
+  induction ops with
+  | nil => intro h hm; exact hm
+  | cons op rest ih => intro h hm; simp only [Heap.run]; exact ih _ (step2_keeps_maps_distinct h op hm)
+
+theorem empty_heap_maps_distinct : MapsDistinct Heap.empty.maps := by
+  intro id kvs hk; simp [Heap.empty] at hk
 
 
 /-! ### The container paths of the source (regenerated: Gen/ContFlow)
